@@ -17,6 +17,9 @@ import (
 
 var registry = map[string]*Property{}
 
+// curProgram is the program the rules currently run on (for helpers that have no context parameter).
+var curProgram *Program
+
 func register(p *Property) { registry[p.ID] = p }
 
 func defaultRepo() string {
@@ -97,6 +100,11 @@ func main() {
 				fmt.Printf("VIOLATION property=%s replay=%s\n", id, "load-failure")
 				os.Exit(1)
 			}
+			if cp, cerr := canonicaliseAll(prog); cerr == nil {
+				prog = cp
+			} else if *verbose {
+				fmt.Fprintln(os.Stderr, "canonical names: ", cerr)
+			}
 		}
 		c, perr := runProperty(prog, p)
 		if perr != nil {
@@ -154,6 +162,7 @@ func firstSentence(s string) string {
 // runProperty runs all rules of p on prog. A panic inside a rule is an analyser failure,
 // never a pass.
 func runProperty(prog *Program, p *Property) (c *Ctx, err error) {
+	curProgram = prog
 	c = &Ctx{P: prog, Prop: p, Counters: map[string]int{}, seenKey: map[string]int{}}
 	for i := range p.Rules {
 		r := &p.Rules[i]
@@ -297,6 +306,19 @@ func doDump(what, repo string) int {
 					}
 				}
 			}
+		}
+	case "names":
+		for _, rs := range roleSpecs {
+			obj := rs.Find(prog)
+			if obj == nil {
+				fmt.Printf("%-40s NOT FOUND\n", rs.Canon)
+				continue
+			}
+			mark := ""
+			if obj.Name() != canonShort(rs.Canon) {
+				mark = "  <- would be rewritten"
+			}
+			fmt.Printf("%-40s %s%s\n", rs.Canon, obj.Name(), mark)
 		}
 	case "funcs":
 		for _, f := range prog.Funcs {
